@@ -1,0 +1,62 @@
+//! Text views of the build-time DFA construction (cargo feature `verif_hooks`; lives inside `dfa`
+//! to see `overlap::remove_overlap` and the private item sets). Read-only.
+#![allow(missing_docs)]
+use super::{build_dfa, overlap, DfaConstructionError, Kind, Precedence};
+use crate::collections::Set;
+use crate::lexer::nfa::Test;
+use regex_syntax::hir::Hir;
+
+/// `ok <state>;<state>;…` with `<state> = kind|items|test edges|other` where kind is `A<nfa>`, `R`
+/// or `N`, items are `nfa:state,…`, test edges `lo-hi>target,…`; or `ambiguity m0 m1`, or
+/// `nfaerror <index> <Kind>`, or `panic`.
+pub fn build_dfa_dump(regexs: &[Hir], precedences: &[usize]) -> String {
+    let precs: Vec<Precedence> = precedences.iter().map(|&p| Precedence(p)).collect();
+    let r = std::panic::catch_unwind(std::panic::AssertUnwindSafe(|| build_dfa(regexs, &precs)));
+    match r {
+        Err(_) => "panic".to_string(),
+        Ok(Err(DfaConstructionError::NfaConstructionError { index, error })) => {
+            format!("nfaerror {} {:?}", index.index(), error)
+        }
+        Ok(Err(DfaConstructionError::Ambiguity { match0, match1 })) => {
+            format!("ambiguity {} {}", match0.index(), match1.index())
+        }
+        Ok(Ok(dfa)) => {
+            let states: Vec<String> = dfa
+                .states
+                .iter()
+                .map(|s| {
+                    let kind = match s.kind {
+                        Kind::Accepts(n) => format!("A{}", n.index()),
+                        Kind::Reject => "R".to_string(),
+                        Kind::Neither => "N".to_string(),
+                    };
+                    let items: Vec<String> = s
+                        .item_set
+                        .items
+                        .iter()
+                        .map(|i| format!("{}:{}", i.nfa_index.index(), format!("{:?}", i.nfa_state).trim_start_matches("Nfa")))
+                        .collect();
+                    let tests: Vec<String> = s
+                        .test_edges
+                        .iter()
+                        .map(|(t, to)| format!("{}-{}>{}", t.start(), t.end(), to.index()))
+                        .collect();
+                    format!("{}|{}|{}|{}", kind, items.join(","), tests.join(","), s.other_edge.index())
+                })
+                .collect();
+            format!("ok {}", states.join(";"))
+        }
+    }
+}
+
+/// `remove_overlap` on the set of the given inclusive ranges: `ok lo-hi,…` or `panic`.
+pub fn remove_overlap_dump(ranges: &[(u32, u32)]) -> String {
+    let set: Set<Test> = ranges.iter().map(|&(lo, hi)| Test::new(lo..=hi)).collect();
+    match std::panic::catch_unwind(|| overlap::remove_overlap(&set)) {
+        Err(_) => "panic".to_string(),
+        Ok(v) => {
+            let parts: Vec<String> = v.iter().map(|t| format!("{}-{}", t.start(), t.end())).collect();
+            format!("ok {}", parts.join(","))
+        }
+    }
+}
